@@ -11,6 +11,7 @@ import (
 	"path/filepath"
 	"strconv"
 	"strings"
+	"sync"
 	"time"
 )
 
@@ -112,8 +113,60 @@ func (c *ctx) merge(r rec) {
 
 const childRestarts = 8
 
+// groupOut is what one group of cases reported, kept apart until every group has finished so
+// that the merged streams have the same order on every run whatever the scheduling was.
+type groupOut struct {
+	recs  []rec
+	notes []string
+}
+
+// maxParallelGroups bounds the child processes running side by side (the machine is shared).
+const maxParallelGroups = 3
+
+// runGroups executes the groups in child processes of their own, at most maxParallelGroups at
+// a time, and merges their records in the order the groups were given.
+func (c *ctx) runGroups(groups []string) error {
+	outs := make([]groupOut, len(groups))
+	errs := make([]error, len(groups))
+	sem := make(chan struct{}, maxParallelGroups)
+	var wg sync.WaitGroup
+	for i, g := range groups {
+		wg.Add(1)
+		go func(i int, g string) {
+			defer wg.Done()
+			sem <- struct{}{}
+			defer func() { <-sem }()
+			errs[i] = c.runChildTo(g, &outs[i])
+		}(i, g)
+	}
+	wg.Wait()
+	for i, g := range groups {
+		c.r.Mark("case " + g)
+		for _, r := range outs[i].recs {
+			c.merge(r)
+		}
+		c.r.Notes = append(c.r.Notes, outs[i].notes...)
+		if errs[i] != nil {
+			return errs[i]
+		}
+	}
+	return nil
+}
+
 // runChild executes one group of cases in child processes and merges what they report.
 func (c *ctx) runChild(group string, extraEnv ...string) error {
+	var out groupOut
+	err := c.runChildTo(group, &out, extraEnv...)
+	for _, r := range out.recs {
+		c.merge(r)
+	}
+	c.r.Notes = append(c.r.Notes, out.notes...)
+	return err
+}
+
+// runChildTo is runChild collecting into out instead of the Run (safe to call from several
+// goroutines for different groups).
+func (c *ctx) runChildTo(group string, gout *groupOut, extraEnv ...string) error {
 	dir := filepath.Join(c.r.Dir, "child-"+group)
 	if err := os.MkdirAll(dir, 0o755); err != nil {
 		return err
@@ -143,7 +196,7 @@ func (c *ctx) runChild(group string, extraEnv ...string) error {
 			for sc.Scan() {
 				var r rec
 				if json.Unmarshal(sc.Bytes(), &r) == nil {
-					c.merge(r)
+					gout.recs = append(gout.recs, r)
 				}
 				offset += int64(len(sc.Bytes())) + 1
 			}
@@ -173,7 +226,7 @@ func (c *ctx) runChild(group string, extraEnv ...string) error {
 			}
 			cands = append(cands, line)
 			for _, cand := range cands {
-				if crashed, o2 := c.crashesAlone(cand); crashed {
+				if crashed, o2 := c.crashesAlone(group, cand); crashed {
 					line, out = cand, o2
 					break
 				}
@@ -190,19 +243,19 @@ func (c *ctx) runChild(group string, extraEnv ...string) error {
 		if len(detail) > 700 {
 			detail = detail[:700] + "…"
 		}
-		c.merge(rec{Lines: [][2]string{{line, "PANIC"}}, Canon: line, Class: "crash:PANIC",
+		gout.recs = append(gout.recs, rec{Lines: [][2]string{{line, "PANIC"}}, Canon: line, Class: "crash:PANIC",
 			Fail: &recFail{Clause: "no-panic", Key: "panic:" + fn, Lines: []string{c.r.Prop + " " + line}, Detail: detail}})
 		skip = idx + 1
 		if attempt >= childRestarts {
-			c.r.Notes = append(c.r.Notes, fmt.Sprintf("group %s: gave up after %d child crashes; the cases behind index %d were not run", group, attempt+1, idx))
+			gout.notes = append(gout.notes, fmt.Sprintf("group %s: gave up after %d child crashes; the cases behind index %d were not run", group, attempt+1, idx))
 			return nil
 		}
 	}
 }
 
 // crashesAlone runs one case line in a child of its own and reports whether that child died.
-func (c *ctx) crashesAlone(line string) (bool, string) {
-	dir := filepath.Join(c.r.Dir, "child-attrib")
+func (c *ctx) crashesAlone(group, line string) (bool, string) {
+	dir := filepath.Join(c.r.Dir, "child-attrib-"+group)
 	_ = os.MkdirAll(dir, 0o755)
 	rf := filepath.Join(dir, "replay.json")
 	b, _ := json.Marshal(map[string][]string{"case": {c.r.Prop + " " + line}})
